@@ -52,6 +52,8 @@ Attrs == <<
   [n |-> "secrets", top |-> FALSE, p |-> <<"secrets">>,
      alts |-> {Sq1(S("s1")), Sq1(M2("source", S("s1"), "mode", I(288))), Sq2(S("s2"), S("s1")), Sq1(M2("source", S("s2"), "target", S("/run/secrets/s1")))}],
   [n |-> "configs", top |-> FALSE, p |-> <<"configs">>, alts |-> {Sq1(S("c1")), Sq1(M2("source", S("c1"), "target", S("/etc/c1"))), Sq1(M2("source", S("c2"), "target", S("/c1")))}],
+  [n |-> "ipam config", top |-> TRUE, p |-> <<"networks", "n1", "ipam", "config">>,
+     alts |-> {Sq2(M1("subnet", S("10.0.0.0/24")), M1("subnet", S("10.0.1.0/24"))), Sq1(M1("subnet", S("10.0.2.0/24"))), Sq1(M2("subnet", S("10.0.1.0/24"), "gateway", S("10.0.1.1")))}],
   [n |-> "ulimits", top |-> FALSE, p |-> <<"ulimits">>, alts |-> {M1("nofile", I(100)), M1("nofile", M2("soft", I(10), "hard", I(20))), M1("nproc", I(5))}],
   [n |-> "deploy.limits", top |-> FALSE, p |-> <<"deploy", "resources", "limits">>, alts |-> {M1("cpus", S("0.5")), M1("memory", S("64M")), M2("cpus", S("1.5"), "pids", I(10))}],
   [n |-> "networks.labels", top |-> TRUE, p |-> <<"networks", "n1", "labels">>, alts |-> {Sq1(S("a=1")), M2("a", S("2"), "b", S("3"))}],
